@@ -1127,5 +1127,93 @@ def special_C01(seed, tier, model, deadline):
         if fs:
             f = min(fs, key=lambda x: x['idx'])
             fails.append({'seed': seed, 'k': 'conv-%d' % k, 'failure': f, 'ops': r.ops[:f['idx'] + 1]})
-    return {'failures': fails, 'mismatches': mism,
-            'coverage': {'conversation_programs': progs, 'conversation_ops': nops, 'conversation_calls': kinds}}
+    cov = {'conversation_programs': progs, 'conversation_ops': nops, 'conversation_calls': kinds}
+    if tier == 'thorough':
+        # exhaustive search of the two-machine system of one stream, up to three frames in flight each way, over the
+        # transition table regenerated from stream.py (tools/pair_fsm_search.lean): a test that supports the theorems
+        # fsm_sync / fsm_cross, which cover one frame each way
+        import re
+        import subprocess
+        root = os.path.dirname(HERE)
+        try:
+            p = subprocess.run(['lake', 'env', 'lean', os.path.join(root, 'tools', 'pair_fsm_search.lean')],
+                               cwd=os.path.join(root, 'lean'), stdout=subprocess.PIPE, stderr=subprocess.STDOUT, timeout=900)
+            txt = p.stdout.decode('utf-8', 'replace')
+            m = re.search(r'\((\d+), \[(.*)\]\)', txt, re.S)
+            cov['pair_fsm_search'] = {'configurations': int(m.group(1)) if m else None, 'refused_deliveries': (m.group(2).strip()[:400] if m else txt[-400:])}
+            if not m or m.group(2).strip():
+                fails.append({'seed': seed, 'k': 'pair-fsm-search', 'ops': [],
+                              'failure': {'clause': 'pair-fsm-search-found-a-refused-delivery', 'idx': 0,
+                                          'detail': {'cause': 'unexplained', 'output': (m.group(2) if m else txt)[-600:]}}})
+        except Exception as e:  # noqa
+            cov['pair_fsm_search'] = {'error': repr(e)}
+    return {'failures': fails, 'mismatches': mism, 'coverage': cov}
+
+
+def _reset_race_programs(seed, n):
+    """C20: one endpoint resets a stream of its own choosing; the peer's frames for that stream (HEADERS, DATA,
+    WINDOW_UPDATE, RST_STREAM, in random order, one delivery each) arrive afterwards - before or after the closed stream
+    was cleaned out of the table, with or without the endpoint's MAX_CONCURRENT_STREAMS reached by other streams."""
+    import random
+    import wire
+    blk = wire.hpack_literal_block
+    REQ = [(b':method', b'POST', False), (b':scheme', b'https', False), (b':path', b'/', False), (b':authority', b'x', False)]
+    RESP = blk([(b':status', b'200')])
+    TRAIL = blk([(b'x-trailer', b'1')])
+    for k in range(n):
+        rng = random.Random((seed * 60013 + k) & 0xFFFFFFFF)
+        client = rng.random() < 0.5
+        limit = rng.choice([None, 1, 1, 2])
+        cleaned = rng.random() < 0.7
+        ops = [{'op': 'new', 'c': 0, 'client': client, 'vo': 1, 'no': 1, 'vi': 1, 'ni': 1, 'enc': None},
+               {'op': 'initiate_connection', 'c': 0},
+               {'op': 'recv', 'c': 0, 'data': (b'' if client else wire.PREFACE) + wire.settings_frame([]) + wire.settings_frame(ack=True)}]
+        if limit is not None:
+            ops += [{'op': 'update_settings', 'c': 0, 'settings': [(3, limit)]}, {'op': 'recv', 'c': 0, 'data': wire.settings_frame(ack=True)}]
+        if client:
+            victim = 3
+            ops += [{'op': 'send_headers', 'c': 0, 'sid': 1, 'headers': REQ, 'es': False},
+                    {'op': 'send_headers', 'c': 0, 'sid': 3, 'headers': REQ, 'es': rng.random() < 0.5}]
+            # the peer's streams that fill the limit: pushes with their responses
+            for j in range(limit or 0):
+                p = 2 + 2 * j
+                ops.append({'op': 'recv', 'c': 0, 'data': wire.push_promise_frames(1, p, blk([(b':method', b'GET'), (b':scheme', b'https'), (b':path', b'/p'), (b':authority', b'x')]))})
+                ops.append({'op': 'recv', 'c': 0, 'data': wire.headers_frames(p, RESP)})
+            racing = [wire.headers_frames(victim, RESP, end_stream=rng.random() < 0.5), wire.data_frame(victim, b'late' * rng.randrange(0, 50)),
+                      wire.window_update(victim, rng.randrange(1, 1000)), wire.rst_stream(victim, rng.choice([0, 5, 8]))]
+            alive = wire.headers_frames(1, RESP, end_stream=True)
+        else:
+            victim = 1
+            ops.append({'op': 'recv', 'c': 0, 'data': wire.headers_frames(1, blk([(h[0], h[1]) for h in REQ]))})
+            racing = [wire.headers_frames(victim, TRAIL, end_stream=True), wire.data_frame(victim, b'late' * rng.randrange(0, 50)),
+                      wire.window_update(victim, rng.randrange(1, 1000)), wire.rst_stream(victim, rng.choice([0, 5, 8]))]
+            alive = wire.ping(b'12345678')
+        ops.append({'op': 'reset_stream', 'c': 0, 'sid': victim, 'code': rng.choice([0, 8, 11])})
+        if cleaned:
+            ops.append({'op': 'q', 'c': 0, 'what': rng.choice(['open_out', 'open_in'])})
+        if not client:
+            # other streams of the peer fill the limit after the reset
+            for j in range(limit or 0):
+                ops.append({'op': 'recv', 'c': 0, 'data': wire.headers_frames(3 + 2 * j, blk([(h[0], h[1]) for h in REQ]))})
+        rng.shuffle(racing)
+        # RST_STREAM ends what the peer may send on the stream: nothing of the rest after it
+        cut = next((i for i, f in enumerate(racing) if f[3] == wire.RST_STREAM), len(racing))
+        for f in racing[:cut + 1]:
+            ops.append({'op': 'recv', 'c': 0, 'data': f})
+        ops.append({'op': 'recv', 'c': 0, 'data': alive})
+        yield 'race-%d' % k, ops
+
+
+def special_C20(seed, tier, model, deadline):
+    """directed reset races (see _reset_race_programs) judged by oracle_C20 and compared with the model"""
+    import time
+    from oracles import oracle_C20
+    n = {'quick': 300, 'thorough': 6000}.get(tier, 300)
+    fails, mism, progs, nops = [], [], 0, 0
+    for key, ops in _reset_race_programs(seed, n):
+        if time.time() > deadline:
+            break
+        _judge('C20', ops, key, seed, model, oracle_C20, fails, mism)
+        progs += 1
+        nops += len(ops)
+    return {'failures': fails, 'mismatches': mism, 'coverage': {'reset_race_programs': progs, 'reset_race_ops': nops}}
